@@ -73,6 +73,9 @@ type KV struct {
 	// OnWrite is consulted before every durable write (index in the log, the write); returning true crashes the
 	// process before the write is applied.
 	OnWrite func(idx int, w Write) bool
+	// FailWrite is consulted before every durable write; returning true makes the write fail with a transient
+	// I/O error (nothing is written, the process goes on).
+	FailWrite func(idx int, w Write) bool
 	// Gate, if set, is called before every operation (scheduling point).
 	Gate func(op string)
 	// FailNext makes the next n writes fail with an error (transient I/O error), without crashing.
@@ -80,6 +83,9 @@ type KV struct {
 }
 
 var _ ds.Batching = (*KV)(nil)
+
+// ErrTransientIO is what an injected write failure returns.
+var ErrTransientIO = fmt.Errorf("kv: transient I/O error (injected)")
 
 func NewKV(image map[string][]byte) *KV {
 	kv := &KV{data: map[string][]byte{}, base: map[string][]byte{}, Fate: &Fate{}}
@@ -189,6 +195,9 @@ func (kv *KV) apply(w Write) error {
 	kv.mu.Unlock()
 	if hook != nil && hook(idx, w) {
 		kv.Fate.Die()
+	}
+	if kv.FailWrite != nil && kv.FailWrite(idx, w) {
+		return ErrTransientIO
 	}
 	kv.mu.Lock()
 	defer kv.mu.Unlock()
